@@ -9,25 +9,19 @@ Open Scope Q_scope.
 Definition view (g : geom) (s : state) (i j : nat) : Q :=
   match st_frame s with
   | [] => mget (st_arr s) i j
-  | f => credit (hit_wrap g) (fcl f) i j
+  | f => credit (hit_exact g) (fcl f) i j
   end.
 
 Definition Inv (g : geom) (s : state) : Prop :=
   Shape (g_rows g) (g_cols g) (st_arr s) /\
-  (st_frame s = [] -> forall i j, (i < g_rows g)%nat -> (j < g_cols g)%nat -> 0 <= mget (st_arr s) i j) /\
-  forallb (wrappable g) (fcl (st_frame s)) = true.
+  (st_frame s = [] -> forall i j, (i < g_rows g)%nat -> (j < g_cols g)%nat -> 0 <= mget (st_arr s) i j).
 
-(* hypotheses on one operation: no removal, non-negative arrays, every cluster index within one
-   detector length of the array (so that unchecked indexing stays inside the buffer) *)
-Definition op_ok (g : geom) (o : op) : bool :=
-  negb (is_removal o) && op_arrays_nonneg o && op_clusters (wrappable g) o.
-(* the property's hypothesis: clusters inside the sensitive area *)
-Definition op_ok_in (g : geom) (o : op) : bool :=
-  negb (is_removal o) && op_arrays_nonneg o && op_clusters (inside g) o.
+(* hypotheses on one operation: no removal, non-negative arrays; clusters may lie ANYWHERE *)
+Definition op_ok (o : op) : bool := negb (is_removal o) && op_arrays_nonneg o.
 
 Lemma view_renumber g arr l i j :
   view g {| st_arr := arr; st_frame := renumber l |} i j =
-  match l with [] => mget arr i j | _ => credit (hit_wrap g) l i j end.
+  match l with [] => mget arr i j | _ => credit (hit_exact g) l i j end.
 Proof.
   destruct l as [|c l]; [reflexivity|].
   unfold view. cbn [st_frame]. destruct (renumber (c :: l)) eqn:E; [apply renumber_nil in E; discriminate|].
@@ -35,24 +29,23 @@ Proof.
 Qed.
 
 Lemma add_frame_ok g s cs :
-  geom_ok g = true -> Inv g s -> forallb (wrappable g) cs = true ->
+  geom_ok g = true -> Inv g s ->
   Inv g (add_frame g s cs) /\
   forall i j, (i < g_rows g)%nat -> (j < g_cols g)%nat ->
-    view g (add_frame g s cs) i j == view g s i j + credit (hit_wrap g) cs i j.
+    view g (add_frame g s cs) i j == view g s i j + credit (hit_exact g) cs i j.
 Proof.
-  intros Hg [HS [HN HW]] Hcs. unfold add_frame.
+  intros Hg [HS HN]. unfold add_frame.
   destruct (st_frame s) as [|p f] eqn:F.
   - specialize (HN eq_refl).
     destruct (all_zero (st_arr s)) eqn:Z.
     + split.
-      * split; [exact HS|]. split; [intros _; exact HN|]. cbn [st_frame]. rewrite fcl_renumber; auto.
+      * split; [exact HS|]. intros _; exact HN.
       * intros i j Hi Hj. rewrite view_renumber. unfold view. rewrite F.
         destruct cs; cbn [st_arr].
         -- simpl. ring.
         -- rewrite (all_zero_mget _ i j Z). ring.
     + split.
-      * split; [exact HS|]. split; [intros _; exact HN|]. cbn [st_frame]. rewrite fcl_renumber.
-        rewrite forallb_app, centres_wrappable, Hcs; auto.
+      * split; [exact HS|]. intros _; exact HN.
       * intros i j Hi Hj. rewrite view_renumber. unfold view. rewrite F. cbn [st_arr].
         destruct (centres g (st_arr s) ++ cs) eqn:E.
         -- apply app_eq_nil in E. destruct E as [_ ->]. simpl. ring.
@@ -60,9 +53,8 @@ Proof.
            rewrite pos_nonneg by (apply HN; auto). reflexivity.
   - assert (NE : fcl (p :: f) ++ cs <> []) by (simpl; discriminate).
     split.
-    + split; [exact HS|]. split.
-      * cbn [st_frame]. intros E. apply renumber_nil in E. contradiction.
-      * cbn [st_frame]. rewrite fcl_renumber, forallb_app, Hcs. try rewrite F in HW. rewrite HW. auto.
+    + split; [exact HS|].
+      cbn [st_frame]. intros E. apply renumber_nil in E. contradiction.
     + intros i j Hi Hj. rewrite view_renumber. unfold view. rewrite F.
       destruct (fcl (p :: f) ++ cs) eqn:E; [contradiction|].
       rewrite <- E, credit_app. reflexivity.
@@ -70,41 +62,41 @@ Qed.
 
 Lemma Inv_init g : Inv g (init g).
 Proof.
-  split; [apply Shape_zeros|]. split; [|reflexivity].
+  split; [apply Shape_zeros|].
   intros _ i j _ _. simpl. rewrite mget_zeros. apply Qle_refl.
 Qed.
 
 Definition in_range g (i j : nat) := (i < g_rows g)%nat /\ (j < g_cols g)%nat.
 
 Lemma step_ok g s o :
-  geom_ok g = true -> Inv g s -> op_ok g o = true ->
+  geom_ok g = true -> Inv g s -> op_ok o = true ->
   exists s', fst (step g s o) = Some s' /\ Inv g s' /\
     (forall i j, (i < g_rows g)%nat -> (j < g_cols g)%nat ->
-       view g s' i j == acc_step g (hit_wrap g) (view g s) o i j) /\
+       view g s' i j == acc_step g (hit_exact g) (view g s) o i j) /\
     (o = Read -> exists m, snd (step g s o) = OArr m /\ Shape (g_rows g) (g_cols g) m /\
        forall i j, (i < g_rows g)%nat -> (j < g_cols g)%nat -> mget m i j == view g s i j).
 Proof.
-  intros Hg HI Hok. unfold op_ok in Hok. repeat rewrite andb_true_iff in Hok. destruct Hok as [[Hr Hn] Hc].
-  destruct o; simpl in Hr, Hn, Hc; try discriminate.
+  intros Hg HI Hok. unfold op_ok in Hok. apply andb_true_iff in Hok. destruct Hok as [Hr Hn].
+  destruct o; simpl in Hr, Hn; try discriminate.
   - (* AddArray *)
     simpl. destruct (shape_ok (g_rows g) (g_cols g) a) eqn:SO.
     + apply shape_ok_iff in SO.
       destruct (st_frame s) as [|p f] eqn:F.
-      * destruct HI as [HS [HN HW]]. specialize (HN F).
+      * destruct HI as [HS HN]. specialize (HN F).
         eexists; split; [reflexivity|]. split; [|split; [|discriminate]].
-        -- split; [apply Shape_madd; auto|]. split; [|reflexivity].
+        -- split; [apply Shape_madd; auto|].
            intros _ i j Hi Hj. simpl. rewrite (mget_madd (g_rows g) (g_cols g)) by auto.
            pose proof (HN i j Hi Hj). pose proof (nonneg_mget a i j Hn). lra.
         -- intros i j Hi Hj. unfold view at 1. simpl. rewrite (mget_madd (g_rows g) (g_cols g)) by auto.
            unfold view. rewrite F. reflexivity.
-      * destruct (add_frame_ok g s (centres g a) Hg HI (centres_wrappable g a Hg)) as [I' V'].
+      * destruct (add_frame_ok g s (centres g a) Hg HI) as [I' V'].
         eexists; split; [reflexivity|]. split; [exact I'|]. split; [|discriminate].
         intros i j Hi Hj. rewrite V' by auto. rewrite credit_centres by auto.
         rewrite pos_nonneg by (apply nonneg_mget; auto). reflexivity.
     + exists s. split; [reflexivity|]. split; [exact HI|]. split; [|discriminate].
       intros; reflexivity.
   - (* AddClusters *)
-    destruct (add_frame_ok g s cs Hg HI Hc) as [I' V'].
+    destruct (add_frame_ok g s cs Hg HI) as [I' V'].
     simpl. eexists; split; [reflexivity|]. split; [exact I'|]. split; [|discriminate].
     intros i j Hi Hj. apply V'; auto.
   - (* Read *)
@@ -112,13 +104,13 @@ Proof.
     + exists s. split; [reflexivity|]. split; [exact HI|]. split; [intros; reflexivity|].
       intros _. exists (st_arr s). split; [reflexivity|]. split; [apply HI|].
       intros i j _ _. unfold view. rewrite F. reflexivity.
-    + destruct HI as [HS [HN HW]]. try rewrite F in HW.
-      destruct (bin_spec g (fcl (p :: f)) (zeros (g_rows g) (g_cols g)) (Shape_zeros _ _) HW) as [m [B [Sm G]]].
+    + destruct HI as [HS HN].
+      destruct (to_array_spec g (fcl (p :: f))) as [m [B [Sm G]]].
       rewrite B. cbn [fst snd]. eexists; split; [reflexivity|]. split; [|split].
-      * split; [exact Sm|]. split; [discriminate|exact HW].
+      * split; [exact Sm|]. discriminate.
       * intros i j Hi Hj. unfold view. simpl. rewrite F. reflexivity.
       * intros _. exists m. split; [reflexivity|]. split; [exact Sm|].
-        intros i j Hi Hj. rewrite (G i j Hi Hj), mget_zeros. unfold view. rewrite F. ring.
+        intros i j Hi Hj. rewrite (G i j Hi Hj). unfold view. rewrite F. reflexivity.
   - (* ReadFrame *)
     exists s. simpl. split; [reflexivity|]. split; [exact HI|]. split; [intros; reflexivity|discriminate].
   - (* Reset *)
@@ -140,29 +132,29 @@ Proof. unfold exec. rewrite fold_left_app. reflexivity. Qed.
 Lemma acc_of_snoc g hit ops o : acc_of g hit (ops ++ [o]) = acc_step g hit (acc_of g hit ops) o.
 Proof. unfold acc_of. rewrite fold_left_app. reflexivity. Qed.
 
-(* the state after any admissible op sequence satisfies the invariant and abstracts to the
-   (wrapped) accumulator *)
+(* the state after any removal-free op sequence (clusters anywhere) satisfies the invariant and
+   abstracts to the accumulator *)
 Theorem exec_refines g ops :
-  geom_ok g = true -> forallb (op_ok g) ops = true ->
+  geom_ok g = true -> forallb op_ok ops = true ->
   exists s, exec g (Some (init g)) ops = Some s /\ Inv g s /\
-    forall i j, (i < g_rows g)%nat -> (j < g_cols g)%nat -> view g s i j == wrap_acc g ops i j.
+    forall i j, (i < g_rows g)%nat -> (j < g_cols g)%nat -> view g s i j == spec_acc g ops i j.
 Proof.
   intros Hg. induction ops as [|o ops IH] using rev_ind; intros Hok.
   - exists (init g). split; [reflexivity|]. split; [apply Inv_init|].
-    intros i j _ _. unfold view, wrap_acc, acc_of. simpl. rewrite mget_zeros. reflexivity.
+    intros i j _ _. unfold view, spec_acc, acc_of. simpl. rewrite mget_zeros. reflexivity.
   - rewrite forallb_app in Hok. apply andb_true_iff in Hok. destruct Hok as [H1 H2].
     simpl in H2. rewrite andb_true_r in H2.
     destruct (IH H1) as [s [E [I V]]].
     destruct (step_ok g s o Hg I H2) as [s' [E' [I' [V' _]]]].
     exists s'. split; [rewrite exec_snoc, E; exact E'|]. split; [exact I'|].
-    intros i j Hi Hj. rewrite (V' i j Hi Hj). unfold wrap_acc. rewrite acc_of_snoc.
+    intros i j Hi Hj. rewrite (V' i j Hi Hj). unfold spec_acc. rewrite acc_of_snoc.
     apply acc_step_ext. apply V; auto.
 Qed.
 
-Theorem read_refines_wrap g ops :
-  geom_ok g = true -> forallb (op_ok g) ops = true ->
+Theorem read_refines_accumulator g ops :
+  geom_ok g = true -> forallb op_ok ops = true ->
   exists m, read_after g ops = OArr m /\ Shape (g_rows g) (g_cols g) m /\
-    forall i j, (i < g_rows g)%nat -> (j < g_cols g)%nat -> mget m i j == wrap_acc g ops i j.
+    forall i j, (i < g_rows g)%nat -> (j < g_cols g)%nat -> mget m i j == spec_acc g ops i j.
 Proof.
   intros Hg Hok. destruct (exec_refines g ops Hg Hok) as [s [E [I V]]].
   destruct (step_ok g s Read Hg I eq_refl) as [s' [_ [_ [_ R]]]].
@@ -171,43 +163,8 @@ Proof.
   intros i j Hi Hj. rewrite (Gm i j Hi Hj). apply V; auto.
 Qed.
 
-(* inside the sensitive area the wrapped accumulator is the accumulator *)
-Lemma op_ok_in_ok g o : geom_ok g = true -> op_ok_in g o = true -> op_ok g o = true.
-Proof.
-  intros Hg H. unfold op_ok_in, op_ok in *. repeat rewrite andb_true_iff in *. destruct H as [[A B] C].
-  repeat split; auto. destruct o; simpl in *; auto.
-  apply forallb_forall. intros c Hc. rewrite forallb_forall in C. apply inside_wrappable; auto.
-Qed.
-
-Lemma acc_inside_eq g ops : geom_ok g = true -> forallb (op_clusters (inside g)) ops = true ->
-  forall f f' i j, f i j == f' i j ->
-    fold_left (acc_step g (hit_wrap g)) ops f i j == fold_left (acc_step g (hit_exact g)) ops f' i j.
-Proof.
-  intros Hg. induction ops as [|o ops IH]; intros Hin f f' i j H; simpl; [exact H|].
-  simpl in Hin. apply andb_true_iff in Hin. destruct Hin as [Ho Hin].
-  apply IH; auto.
-  destruct o; simpl; try exact H; try reflexivity.
-  - destruct (shape_ok (g_rows g) (g_cols g) a); [rewrite H; reflexivity|exact H].
-  - rewrite H. simpl in Ho. rewrite forallb_forall in Ho.
-    rewrite (credit_ext (hit_wrap g) (hit_exact g)); [reflexivity|].
-    intros c Hc. apply inside_hit; auto.
-Qed.
-
 Lemma forallb_impl {A} (p q : A -> bool) l : (forall x, p x = true -> q x = true) -> forallb p l = true -> forallb q l = true.
 Proof. intros H. rewrite !forallb_forall. auto. Qed.
-
-Theorem read_refines_accumulator g ops :
-  geom_ok g = true -> forallb (op_ok_in g) ops = true ->
-  exists m, read_after g ops = OArr m /\ Shape (g_rows g) (g_cols g) m /\
-    forall i j, (i < g_rows g)%nat -> (j < g_cols g)%nat -> mget m i j == spec_acc g ops i j.
-Proof.
-  intros Hg Hok.
-  destruct (read_refines_wrap g ops Hg (forallb_impl _ _ _ (fun o => op_ok_in_ok g o Hg) Hok)) as [m [E [S G]]].
-  exists m. split; [exact E|]. split; [exact S|].
-  intros i j Hi Hj. rewrite (G i j Hi Hj). unfold wrap_acc, spec_acc, acc_of.
-  apply acc_inside_eq; auto; [|reflexivity].
-  eapply forallb_impl; [|exact Hok]. intros o H. unfold op_ok_in in H. apply andb_true_iff in H. apply H.
-Qed.
 
 (* reset gives zero, whatever came before *)
 Lemma spec_acc_reset g ops i j : spec_acc g (ops ++ [Reset]) i j = 0.
@@ -223,16 +180,3 @@ Definition obs_equiv (g : geom) (a b : obs) : Prop :=
                       forall i j, (i < g_rows g)%nat -> (j < g_cols g)%nat -> mget m i j == mget n i j
   | _, _ => False
   end.
-
-Theorem read_pure_partial g ops1 ops2 :
-  geom_ok g = true -> forallb (op_ok g) (ops1 ++ ops2) = true ->
-  obs_equiv g (read_after g (ops1 ++ Read :: ops2)) (read_after g (ops1 ++ ops2)).
-Proof.
-  intros Hg Hok.
-  assert (Hok' : forallb (op_ok g) (ops1 ++ Read :: ops2) = true).
-  { rewrite forallb_app in *. apply andb_true_iff in Hok. destruct Hok as [A B]. rewrite A. simpl. exact B. }
-  destruct (read_refines_wrap g _ Hg Hok') as [m [E [S G]]].
-  destruct (read_refines_wrap g _ Hg Hok) as [m' [E' [S' G']]].
-  rewrite E, E'. simpl. split; [exact S|]. split; [exact S'|].
-  intros i j Hi Hj. rewrite (G i j Hi Hj), (G' i j Hi Hj). unfold wrap_acc. rewrite acc_of_read. reflexivity.
-Qed.
